@@ -862,8 +862,13 @@ func (e *engine) oneStepEvalClause(clause ast.Clause) ([]DerivedTemporalFact, er
 
 	var facts []DerivedTemporalFact
 	for _, sol := range solutions {
-		head, err := functional.EvalAtom(clause.Head, sol)
-		if err != nil {
+		var head ast.Atom
+		var err error
+		if clause.Transform != nil && clause.Transform.IsLetTransform() {
+			// Function expressions in the head may use variables that the
+			// let-transform defines: they are evaluated after the transform.
+			head = clause.Head.ApplySubst(sol).(ast.Atom)
+		} else if head, err = functional.EvalAtom(clause.Head, sol); err != nil {
 			return nil, err
 		}
 
@@ -893,8 +898,12 @@ func (e *engine) oneStepEvalClause(clause ast.Clause) ([]DerivedTemporalFact, er
 		if e.options.recorder != nil {
 			normal = normalizeRule(clause)
 		}
+		var outErr error
 		if err := EvalTransformWithInputFacts(head, *clause.Transform, []ast.ConstSubstList{row}, nil,
 			func(out ast.Atom, kind TransformKind, groupKey []ast.Constant, inputFacts []ast.Atom) bool {
+				if out, outErr = functional.EvalAtom(out, ast.ConstSubstList{}); outErr != nil {
+					return false
+				}
 				if e.options.recorder != nil {
 					switch kind {
 					case TransformKindLet:
@@ -907,6 +916,9 @@ func (e *engine) oneStepEvalClause(clause ast.Clause) ([]DerivedTemporalFact, er
 				return true
 			}); err != nil {
 			return nil, err
+		}
+		if outErr != nil {
+			return nil, outErr
 		}
 		if e.options.totalFactLimit > 0 && e.store.EstimateFactCount() > e.options.totalFactLimit {
 			return nil, fmt.Errorf("fact size limit reached evaluting %q %d > %d", clause.Head.String(), e.store.EstimateFactCount(), e.options.totalFactLimit)
